@@ -266,6 +266,15 @@ func c06(c *Ctx) {
 			reject("key-bitflip", ct, k2, usage, true)
 			// keys of another length than the etype's: the genuine key followed by zero bytes (HMAC pads short keys with
 			// zeros, so a decryption that never looks at the length treats it as the same key), the key without its last byte
+			if e, err := crypto.GetEtype(et); err == nil && et != 23 && et != 19 && et != 20 {
+				// RFC 3961 types: key derivation itself refuses a key of the wrong size (a derivation that "succeeds"
+				// yields keys that depend on nothing secret)
+				for _, bad := range [][]byte{key.KeyValue[:len(key.KeyValue)-1], append(append([]byte{}, key.KeyValue...), 0), {}} {
+					var derr error
+					p, _ := guard(func() { _, derr = e.DeriveKey(bad, []byte{0, 0, 0, 2, 0xAA}) })
+					c.Check(!p && derr != nil, "key derivation refuses a protocol key of the wrong size", "derive-wrong-size", fmt.Sprintf("%d bytes", len(bad)), map[string]interface{}{"etype": et})
+				}
+			}
 			reject("key-length", ct, types.EncryptionKey{KeyType: et, KeyValue: append(append([]byte{}, key.KeyValue...), 0)}, usage, true)
 			reject("key-length", ct, types.EncryptionKey{KeyType: et, KeyValue: append(append([]byte{}, key.KeyValue...), 0, 0, 0, 0)}, usage, false)
 			reject("key-length", ct, types.EncryptionKey{KeyType: et, KeyValue: append([]byte{}, key.KeyValue[:len(key.KeyValue)-1]...)}, usage, true)
@@ -278,7 +287,35 @@ func c06(c *Ctx) {
 }
 
 // C07: keyed checksums
+// c07UsageSweep: every key usage 0..N for the checksum types whose key derivation n-folds the usage constant
+func c07UsageSweep(c *Ctx) {
+	for _, tc := range []struct {
+		et int32
+		n  uint32
+	}{{16, 4200}, {17, 1300}, {18, 1300}} {
+		e, _ := crypto.GetEtype(tc.et)
+		key := randKey(c, tc.et)
+		step := uint32(1)
+		if c.Quick() && tc.et == 18 {
+			step = 3 // same 128-bit fold as etype 17
+		}
+		for u := uint32(0); u <= tc.n; u += step {
+			data := []byte{byte(u), byte(u >> 8), 0x5a}
+			var sum []byte
+			var err error
+			p, _ := guard(func() { sum, err = e.GetChecksumHash(key.KeyValue, data, u) })
+			if p || err != nil {
+				c.Check(false, "GetChecksumHash succeeds", "checksum-fails", fmt.Sprint(err), map[string]interface{}{"etype": tc.et, "usage": u})
+				continue
+			}
+			c.Case("checksum", jv.L(jv.I(int64(tc.et)), jv.B(key.KeyValue), jv.I(int64(u)), jv.B(data)), jv.Ok(jv.B(sum)))
+		}
+		c.Count(fmt.Sprintf("usage-sweep:etype=%d", tc.et))
+	}
+}
+
 func c07(c *Ctx) {
+	c07UsageSweep(c)
 	var lens []int
 	for l := 0; l <= 200; l++ {
 		if !c.Quick() || l < 4 || l%64 >= 54 && l%64 <= 57 || l%64 == 0 || l%64 == 63 || c.R.Intn(12) == 0 {
